@@ -1485,7 +1485,13 @@ fn lower_expr_loop<'db>(
     let (loop_return_ty, early_return_info) = if !has_normal_return {
         // If the loop does not have a normal return, `LoopResult` is not used
         // but we need to override the return type of the loop to match the function.
-        (ctx.return_type, None)
+        // Inside a loop function that does not wrap its result in `LoopResult`, the value is
+        // returned as is, so it must match that function's own return type.
+        let ty = match &ctx.current_loop_ctx {
+            Some(LoopContext { early_return_info: None, .. }) => ctx.signature.return_type,
+            _ => ctx.return_type,
+        };
+        (ty, None)
     } else if !usage.has_early_return {
         (return_type, None)
     } else {
@@ -1594,7 +1600,8 @@ fn lower_expr_loop<'db>(
     else {
         if !has_normal_return {
             let ret_var_usage = call_loop_expr.as_var_usage(ctx, builder)?;
-            return Err(LoweringFlowError::Return(ret_var_usage, loop_location));
+            // Inside a loop function with early returns, the value is an early return of it.
+            return lower_return(ctx, builder, ret_var_usage, loop_location, true);
         }
 
         return Ok(call_loop_expr);
